@@ -278,6 +278,9 @@ def engine_sweep(ctx, res, scenarios, owners=None, corr_profiles=("stable", "wil
             for i, kind, det in pl.compare_spec(sc, g, l):
                 owners_i, sig = classify_spec_divergence(sc["ops"][i], g["res"][i], l["res"][i].get("spec", {}), kind, det)
                 owners_i = owners_i + extra_owners(sc)
+                first_call = min([j for j, o in enumerate(sc["ops"]) if o.get("op") in ("exec", "fetch")] or [i])
+                if i > first_call:
+                    owners_i.append("C08")   # a later call on a used instance diverges from the from-scratch semantics
                 res.count("spec-divergence:" + sig)
                 if want & set(owners_i):
                     res.violations.append({"signature": "oracle:" + sig + gap_class(sc), "detail": det, "scenario": sc,
@@ -693,6 +696,94 @@ def run_c19(ctx):
     return res
 
 
+def monitor_c07(sc, g):
+    """alone vs together on the real engine: what rule A (B) does in the joint knowledge base equals what it does alone"""
+    out = []
+    rs = g.get("res", [])
+    ops = sc["ops"]
+    # group the call ops by (kind, facts) in threes: joint, alone A, alone B
+    calls = [(i, o) for i, o in enumerate(ops) if o.get("op") in ("fetch", "exec")]
+    for j in range(0, len(calls) - 2, 3):
+        (i0, o0), (i1, o1), (i2, o2) = calls[j:j + 3]
+        if not (o0["inst"] == "i" and o1["inst"] == "ia" and o2["inst"] == "ib"):
+            continue
+        r0, r1, r2 = rs[i0], rs[i1], rs[i2]
+        if o0["op"] == "fetch":
+            joint = sorted(n for n, _ in (r0.get("rules") or []))
+            alone = sorted([n for n, _ in (r1.get("rules") or [])] + [n for n, _ in (r2.get("rules") or [])])
+            if joint != alone:
+                out.append(("fetch-alone-vs-together", "together %s, alone %s" % (joint, alone)))
+        else:
+            fired0 = sorted(set(e[2] for e in (r0.get("trace") or []) if e[0] == "x"))
+            fired12 = sorted(set(e[2] for e in (r1.get("trace") or []) + (r2.get("trace") or []) if e[0] == "x"))
+            if fired0 != fired12:
+                out.append(("exec-alone-vs-together", "together fired %s, alone %s" % (fired0, fired12)))
+            # the two marker cells written by A and B
+            def markers(r):
+                try:
+                    fs = dict(r["store"][0][1][1][1])
+                    return (fs["U8"][1], fs["U16"][1])
+                except Exception:
+                    return None
+            m0, m1, m2 = markers(r0), markers(r1), markers(r2)
+            if m0 and m1 and m2 and (m0[0] != m1[0] or m0[1] != m2[1]):
+                out.append(("effects-alone-vs-together", "together %s, A alone %s, B alone %s" % (m0, m1, m2)))
+    for i, (o, r) in enumerate(zip(ops, rs)):
+        if o.get("op") == "inst" and not r.get("ok"):
+            out.append(("instance-fails", "NewKnowledgeBaseInstance failed for %s" % o.get("kb")))
+        if o.get("op") == "build" and not r.get("ok"):
+            out.append(("build-fails", "valid sibling rules rejected for %s" % o.get("kb")))
+    return out
+
+
+def run_c07(ctx):
+    import gen_c07
+    res = Result()
+    res.rule = ("pairs of near-identical sibling rules — one constant changed beyond the 6th decimal / in sign / exponent / int-vs-float / by one string "
+                "character incl. quotes, brackets, commas, backslash, snapshot-looking text; one operator, negation, operand order, selector or argument "
+                "(list) changed — built together (both orders, one or two resources) and each alone; FetchMatchingRules and Execute on facts chosen between "
+                "the two constants; monitor: joint behaviour of each rule = its behaviour alone; correspondence incl. exact snapshot strings and the "
+                "working-memory key sets (sharing partition); plus the general engine stream")
+    rng = Rng(ctx.seed * 104729 + 7)
+    scs = corpus(ctx.prop) + [gen_c07.scenario(rng.fork(), "c07-%d-%d" % (ctx.seed, i)) for i in range(ctx.n(500, 8000))]
+    for i in range(0, len(scs), 1500):
+        chunk = scs[i:i + 1500]
+        out = pl.correspond(chunk, jobs=ctx.jobs)
+        for sc, g, l, status, detail in out:
+            res.evaluations += 1
+            res.count("shape:" + sc.get("shape", "?"))
+            if status == "unmodelled":
+                res.unmodelled += 1
+                continue
+            if status == "crash":
+                res.corr_details.append({"id": sc["id"], "status": status, "detail": detail[:500], "scenario": sc})
+                res.corr_broken = True
+                continue
+            res.corr_compared += 1
+            if status == "mismatch":
+                res.corr_details.append({"id": sc["id"], "status": status, "detail": detail[:500], "scenario": sc})
+                res.corr_broken = True
+            key = scenario_key(sc)
+            told_apart = False
+            for o, r in zip(sc["ops"], g.get("res", [])):
+                if o.get("op") == "fetch" and o.get("inst") == "i" and len(r.get("rules") or []) == 1:
+                    told_apart = True
+            if told_apart and key not in res._distinct:
+                res._distinct.add(key)
+                res.distinct_nontrivial += 1
+                if len(res.samples) < 4:
+                    res.samples.append({"shape": sc.get("shape"), "text": sc["ops"][0].get("text", "")[:500]})
+            for sig, det in monitor_c07(sc, g):
+                res.violations.append({"signature": "monitor:" + sig, "detail": det, "scenario": sc})
+            for i2, kind, det in pl.compare_spec(sc, g, l):
+                res.violations.append({"signature": "oracle:" + kind, "detail": det, "scenario": sc, "op_index": i2})
+    # general engine stream as well (sharing between arbitrary rules)
+    scs2 = gen_engine(ctx, ctx.n(300, 3000), [("stable", 5), ("wild", 5)], "C07")
+    engine_sweep(ctx, res, scs2, owners=["C07", "C01", "C02"])
+    res.rule += "; non-trivial = some fact state on which exactly one of the two siblings matches"
+    return res
+
+
 PROPS = {}
 
 
@@ -708,6 +799,7 @@ prop("C04", run=lambda ctx: run_engine_generic(ctx))
 prop("C06", run=lambda ctx: run_engine_generic(ctx))
 prop("C15", run=run_c15)
 prop("C19", run=run_c19)
+prop("C07", run=run_c07)
 prop("C10", run=lambda ctx: run_engine_generic(ctx, mix=(("stable", 5), ("wild", 4), ("cancel", 1))))
 prop("C11", run=lambda ctx: run_engine_generic(ctx))
 prop("C13", run=lambda ctx: run_engine_generic(ctx))
